@@ -7,6 +7,8 @@ come from the corpus: `x * 0 -> 0`, `x - x -> 0` (tests/filecheck/transforms/app
 extra_file.mlir), `x * 1 -> x`, `x / x -> 1` (egg_example.mlir), `x + 0 -> x`
 (apply-pdl/apply_pdl_add_zero.mlir), operand swap (apply-pdl/apply_pdl_swap_inputs.mlir); the corpus
 rules pin the attribute type to i32 while leaving `pdl.type` open, here both are the same type `T`.
+`CREATES_CONSTANT` lists the rules whose right-hand side builds an `arith.constant` (a fresh
+`equivalence.const_class` when the constant does not occur in the function).
 The corpus rule `(x * y) / z -> x * (y / z)` is NOT an integer identity and is only used by the
 detection-power self-test (`UNSOUND`).
 """
@@ -124,6 +126,10 @@ def int_rules(T):
         R["shl1mul"] = r_const_to_binop("shli", 1, "muli", 2, T)
         R["addxx"] = r_self_to_binop("addi", "muli", 2, T)
         R["divuixx"] = r_self_to_const("divui", 1, T)   # refinement: x = 0 is UB in the source
+        R["divsixx"] = r_self_to_const("divsi", 1, T)   # refinement: x = 0 is UB in the source (min / min = 1)
+    # rules whose right-hand side CREATES a constant that need not occur in the source
+    R["remuixx"] = r_self_to_const("remui", 0, T)       # refinement: x = 0 is UB in the source
+    R["remsixx"] = r_self_to_const("remsi", 0, T)       # refinement: x = 0 is UB in the source
     R["assoc_addi"] = r_assoc("addi", T)
     R["assoc_muli"] = r_assoc("muli", T)
     R["distrib"] = r_distrib(T)
@@ -137,6 +143,11 @@ def float_rules(T):
     R["minxx"] = r_self_to_self("minimumf", T)
     R["maxxx"] = r_self_to_self("maximumf", T)
     return R
+
+
+# rule name -> (root op of the redex `x op x`, constant created)
+CREATES_CONSTANT = {"subxx": ("subi", 0), "xorxx": ("xori", 0), "remuixx": ("remui", 0), "remsixx": ("remsi", 0),
+                    "divuixx": ("divui", 1), "divsixx": ("divsi", 1), "addxx": ("addi", 2)}
 
 
 def unsound_rules(T: str) -> dict[str, str]:
